@@ -133,7 +133,9 @@ def val_tok(v):
         return 't' + ','.join(item_tok(x) for x in v)
     if isinstance(v, (bytes, bytearray)):
         return 'b' + ','.join(str(x) for x in v)
-    raise ValueError('no token for %r' % (v,))
+    # any other kind of value (Fraction, complex, objects): an opaque token; the model has no such value, so a message
+    # holding one can only show up as a disagreement, never crash the harness
+    return 'x' + repr(v).replace(' ', '')
 
 
 def canon_meta(m):
